@@ -423,6 +423,14 @@ theorem C17_leave_trace_sound {cap : Nat} {f : List Nat → R} {es : List LEvent
     ∃ as, as.length = es.length ∧ lrun cap f s as = some s' :=
   lcheckTrace_sound h
 
+/-- On a trace without departures the checker with departures IS the base checker: same verdict,
+    same final server state (so extending the driver did not change what it says about the
+    schedules of the base theorems). -/
+theorem C17_leave_trace_conservative {cap : Nat} {f : List Nat → R} (es : List Event) :
+    sameResult (lcheckTrace cap f (linit : LState (List Nat) R) 0 (es.map .ev))
+      (checkTrace cap f init 0 es) :=
+  lcheckTrace_noLeave es linit 0 rfl
+
 section LeaveExamples
 
 /-- capacity 1: 10 is queued, 11 and 12 are parked; 11 leaves while parked, 10 leaves while the
